@@ -9,6 +9,7 @@ import (
 	"os/exec"
 	"path/filepath"
 	"regexp"
+	"runtime"
 	"runtime/debug"
 	"strconv"
 	"strings"
@@ -36,6 +37,11 @@ var c09CancelPrograms = []string{
 	"a = []; for true { a = a + [len(a)] }",
 	`for true { sprintf("%d", rand(10)); max(1, 2, 3); len("abc") }`,
 	`for true { eval("1 + 2 * 3") }`,
+	// the work happens inside the builtins that turn an error into a value
+	"func busy(n) { s = 0; for i = 20 { s = s + i }; s }; k = 0; for true { k = k + 1; catch(busy(k)) }",
+	"func busy(n) { s = 0; for i = 20 { s = s + i }; s }; for true { log(busy(3)) }",
+	"func r(n) { catch(r(n + 1)); log(r(n + 2)) }; r(0)",
+	"for true { c = catch(catch(log(catch([1, 2, 3][0:2])))) }",
 	// thorough
 	"fib = func(n) { if n < 2 { n } else { fib(n - 1) + fib(n - 2) } }; for true { fib(12) }",
 	"for true { [1, 2, 3, [4, 5, {6: 7}]] }",
@@ -49,7 +55,13 @@ var c09CancelPrograms = []string{
 
 func c09CountNodes(src string) int {
 	// upper bound for the number of evaluations that can still be pending: the number of tokens of the program
-	return len(c15Lex(src)) + 8
+	n := len(c15Lex(src)) + 8
+	if strings.Contains(src, "catch(") || strings.Contains(src, "log(") {
+		// catch() and log() look at the context once more when their argument comes back as an error: one poll per
+		// call still in flight, i.e. per level of the recursion being unwound (the session's depth limit is 500)
+		n += 2 * 500
+	}
+	return n
 }
 
 func c09CancelAt(src string, k int, noReg bool) (polls int, rec implRes, after string) {
@@ -85,7 +97,7 @@ func c09CancelAt(src string, k int, noReg bool) (polls int, rec implRes, after s
 }
 
 func c09Cancellation(c *core.Ctx, bounds *[]string) {
-	progs := c09CancelPrograms[:12]
+	progs := c09CancelPrograms[:16]
 	H := 400
 	if !c.Quick() {
 		progs = c09CancelPrograms
@@ -464,6 +476,9 @@ func c09Child(args []string) int {
 		return 2
 	}
 	kind, quick := args[0], args[1] == "quick"
+	if kind == "memseq" {
+		return c09MemSeqChild(quick, args[2:])
+	}
 	var only string
 	if len(args) > 2 {
 		only = args[2]
@@ -559,6 +574,138 @@ func c09Tail(s string, n int) string {
 		return s[:n/2] + " ... " + s[len(s)-n/2:]
 	}
 	return s
+}
+
+// ---- histories of memory-limit changes and growth operations in one process ----
+//
+// A host (the wasm entry point, a library user) configures the limit with debug.SetMemoryLimit at any time: the guard
+// must follow the limit in force when the operation runs, whatever was evaluated under earlier limits.
+
+var c09MemSeqActions = []string{"limit=none", "limit=high", "limit=low", "len([0] * 1000)", "len([0] * 1000000)", "len(0:1000000)", `len("ab" * 8000000)`, "a = [1, 2, 3, 4] * 200000; len(a + a + a)"}
+
+func c09MemSeqChild(quick bool, only []string) int {
+	depth := 4
+	if quick {
+		depth = 3
+	}
+	var runOne func(seq []int) string
+	runOne = func(seq []int) string {
+		debug.SetMemoryLimit(1 << 62)
+		x := newSess(sessCfg{})
+		level := "none"
+		for pos, a := range seq {
+			act := c09MemSeqActions[a]
+			switch act {
+			case "limit=none":
+				debug.SetMemoryLimit(1 << 62)
+				level = "none"
+			case "limit=high", "limit=low":
+				runtime.GC()
+				var ms runtime.MemStats
+				runtime.ReadMemStats(&ms)
+				extra := int64(2 << 30)
+				if act == "limit=low" {
+					extra = 6 << 20
+				}
+				debug.SetMemoryLimit(int64(ms.HeapAlloc) + extra)
+				level = act[6:]
+			default:
+				r := x.step(act)
+				refused := r.panicked || len(r.errs) > 0
+				big := a >= 4
+				fmt.Printf("C09MEMSEQ-OBS %s %v %v\n", level, big, refused)
+				if big && level == "low" && !refused {
+					return fmt.Sprintf("step %d: %s was granted (%s) with the limit at heap + 6 MiB (it needs 16 MiB or more)", pos, act, strings.TrimSpace(r.out))
+				}
+				if refused && !strings.Contains(strings.Join(r.errs, " "), "would exceed memory") {
+					return fmt.Sprintf("step %d: %s failed with %q", pos, act, r.errs)
+				}
+				if !big && refused {
+					return fmt.Sprintf("step %d: %s refused under limit %s", pos, act, level)
+				}
+				_ = x.step("del(a)")
+			}
+		}
+		return ""
+	}
+	if len(only) > 0 {
+		var seq []int
+		for _, f := range strings.Split(only[0], ",") {
+			n, _ := strconv.Atoi(f)
+			seq = append(seq, n)
+		}
+		fmt.Printf("C09MEMSEQ-RESULT %v %q\n", seq, runOne(seq))
+		return 0
+	}
+	n := 0
+	var rec func(seq []int)
+	rec = func(seq []int) {
+		if len(seq) > 0 && seq[len(seq)-1] >= 3 { // ends with an evaluation
+			n++
+			if v := runOne(seq); v != "" {
+				var names []string
+				for _, a := range seq {
+					names = append(names, c09MemSeqActions[a])
+				}
+				fmt.Printf("C09MEMSEQ-VIOL %s | %s | %s\n", strings.Trim(strings.ReplaceAll(fmt.Sprint(seq), " ", ","), "[]"), strings.Join(names, " ; "), v)
+			}
+		}
+		if len(seq) == depth {
+			return
+		}
+		for a := range c09MemSeqActions {
+			if len(seq) > 0 && a < 3 && seq[len(seq)-1] < 3 {
+				continue // two limit changes in a row: only the last one counts
+			}
+			rec(append(append([]int{}, seq...), a))
+		}
+	}
+	rec(nil)
+	fmt.Printf("C09MEMSEQ-END %d\n", n)
+	return 0
+}
+
+func c09MemSeq(c *core.Ctx, bounds *[]string) {
+	if !c.MineNoDedup("child", "memseq") {
+		return
+	}
+	self, _ := os.Executable()
+	tier := "quick"
+	if !c.Quick() {
+		tier = "thorough"
+	}
+	cmd := exec.Command("bash", "-c", fmt.Sprintf("ulimit -v %d; exec %q C09-child memseq %s", 8<<20, self, tier))
+	cmd.Env = append(os.Environ(), "GOMAXPROCS=2")
+	out, err := cmd.CombinedOutput()
+	text := string(out)
+	cs := core.Case{Kind: "memseq", Data: "all"}
+	if err != nil || !strings.Contains(text, "C09MEMSEQ-END") {
+		c.Report(&core.Viol{Class: "memseq:process-death", Detail: fmt.Sprintf("%v %s", err, c09Tail(text, 1500)), Case: cs})
+		return
+	}
+	obs := map[string]int{}
+	total := 0
+	for _, l := range strings.Split(text, "\n") {
+		switch {
+		case strings.HasPrefix(l, "C09MEMSEQ-OBS "):
+			obs[l[14:]]++
+		case strings.HasPrefix(l, "C09MEMSEQ-END "):
+			fmt.Sscanf(l, "C09MEMSEQ-END %d", &total)
+		case strings.HasPrefix(l, "C09MEMSEQ-VIOL "):
+			f := strings.SplitN(l[15:], " | ", 3)
+			if len(f) == 3 {
+				c.Report(&core.Viol{Class: "memseq:guard-ignores-current-limit", Detail: f[2] + " in history " + f[1], Case: core.Case{Kind: "memseq", Cfg: f[0], Data: f[1]}})
+			}
+		}
+	}
+	// vacuity: big operations were both granted (no / high limit) and refused (low limit)
+	if obs["none true false"] == 0 || obs["high true false"] == 0 || obs["low true true"] == 0 {
+		c.Report(&core.Viol{Class: "memseq:HARNESS-vacuous", Detail: fmt.Sprint(obs), Case: cs})
+	}
+	for i := 0; i < total; i++ {
+		c.CountNT(fmt.Sprintf("memseq %d", i), "memseq:ok", true)
+	}
+	*bounds = append(*bounds, fmt.Sprintf("memory-limit histories: every sequence of up to %d actions over %d (limit none / heap+2 GiB / heap+6 MiB set with debug.SetMemoryLimit; a small and 4 large growth operations) ending with an evaluation, %d histories in one child process: a large operation under the low limit is refused whatever ran under earlier limits, nothing else fails (observed: %v)", map[bool]int{true: 3, false: 4}[c.Quick()], len(c09MemSeqActions), total, obs))
 }
 
 func c09CPU() time.Duration {
@@ -734,7 +881,9 @@ func c09CLI(c *core.Ctx, bounds *[]string) {
 		{"mutual", "func a(n) { b(n + 1) }; func b(n) { a(n + 1) }; a(0)"},
 		{"closure", "mk = func(k) { inner = mk(k + 1); () => inner() }; mk(0)"},
 	}
-	modes := []string{"file", "command", "shebang", "stdin-file"}
+	modes := []string{"file", "command", "shebang", "stdin-file", "second-file", "third-file-noreg"}
+	okFile := filepath.Join(dir, "ok.gr")
+	_ = os.WriteFile(okFile, []byte("x = 1\n"), 0o644)
 	n := 0
 	for _, md := range []int{10, 11, 50, 1000, 20000} {
 		for pi, p := range progs {
@@ -758,6 +907,10 @@ func c09CLI(c *core.Ctx, bounds *[]string) {
 				case "stdin-file":
 					args = append(args, "-")
 					stdin = strings.NewReader(p.src + "\n")
+				case "second-file": // several files: each one gets a state of its own
+					args = append(args, okFile, file)
+				case "third-file-noreg":
+					args = append([]string{"-no-register"}, append(args, okFile, okFile, file)...)
 				}
 				cmd := exec.Command("bash", "-c", fmt.Sprintf("ulimit -v %d; exec \"$0\" \"$@\"", 8<<20), grol)
 				cmd.Args = append(cmd.Args, args...)
@@ -784,7 +937,7 @@ func c09CLI(c *core.Ctx, bounds *[]string) {
 					seen[mode] = m[1]
 				}
 				if outcome != "limit-enforced" && outcome != "mode-not-available" {
-					c.Report(&core.Viol{Class: "cli:" + outcome, Detail: fmt.Sprintf("grol %s: %s", strings.Join(args[:4], " "), trunc(lastLines(out, 3), 300)), Case: cs, FindText: mode})
+					c.Report(&core.Viol{Class: "cli:" + outcome, Detail: fmt.Sprintf("grol %s: %s", strings.Join(args[:min(5, len(args))], " "), trunc(lastLines(out, 3), 300)), Case: cs, FindText: mode})
 				}
 				c.CountNT(key, "cli:"+outcome, true)
 				n++
@@ -843,7 +996,7 @@ func c09CLI(c *core.Ctx, bounds *[]string) {
 			n++
 		}
 	}
-	*bounds = append(*bounds, "command line: grol -max-depth {10,11,50,1000,20000} x 3 recursion programs x modes {file, -c, shebang, stdin}: the configured limit is enforced and is the same in every mode; -max-duration {1ms,50ms,1s} x {file,-c} on a non-terminating loop")
+	*bounds = append(*bounds, "command line: grol -max-depth {10,11,50,1000,20000} x 3 recursion programs x modes {file, -c, shebang, stdin, second of 2 files, third of 3 files with -no-register}: the configured limit is enforced and is the same in every mode; -max-duration {1ms,50ms,1s} x {file,-c} on a non-terminating loop")
 }
 
 var errTimeout = fmt.Errorf("timeout")
@@ -880,6 +1033,7 @@ func runC09(c *core.Ctx) {
 	}
 	if !c.Expired() {
 		c09Children(c, &bounds)
+		c09MemSeq(c, &bounds)
 	}
 	if !c.Expired() {
 		c09CLI(c, &bounds)
@@ -916,6 +1070,9 @@ func init() {
 					return &core.Viol{Class: "cancel:session-unusable-afterwards", Case: cs}
 				}
 				return nil
+			}
+			if cs.Kind == "memseq" {
+				return &core.Viol{Class: "replay-by-child", Detail: "run: bin/vcheck C09-child memseq quick " + cs.Cfg, Case: cs}
 			}
 			return &core.Viol{Class: "replay-by-child", Detail: "run: GOMEMLIMIT=256MiB bin/vcheck C09-child " + cs.Kind + " quick '" + strings.SplitN(cs.Data, ":", 2)[0] + "'", Case: cs}
 		},
